@@ -62,6 +62,7 @@ class Harness(cm.BaseB):
         # the same number of wells (hidden state between calls must not leak)
         for n in list(range(2, 15)) + [16, 24, 96, 384]:
             out.append({"k": "pairs", "n": n})
+        out.append({"k": "errors"})
         return out
 
     def run_pairs(self, chunk, st):
@@ -86,8 +87,42 @@ class Harness(cm.BaseB):
                     for v in viol:
                         st.violation(v[0] + "/order-dependent", case, f"after encoding the same mask on {R1}x{C1}: {v[1]}")
 
+    def run_errors(self, chunk, st):
+        """a call that is refused half-way (unknown well after valid ones) must not influence the next call"""
+        for R, C in ((4, 6), (8, 12), (2, 2), (3, 1), (16, 24)):
+            ids = [well_id(r, c) for c in range(C) for r in range(R)]
+            for bad in (["A01", "B1"], [ids[0], ids[-1], well_id(R, 0)], [ids[len(ids) // 2], "Z99"], [ids[1 % len(ids)], ""]):
+                for good in ([ids[-1]], [ids[len(ids) // 3]], []):
+                    case = {"errseq": [R, C, bad, good]}
+                    viol = self.one_errseq(case)
+                    st.case("errseq", case, f"err{case}")
+                    for v in viol:
+                        st.violation(v[0], case, v[1])
+
+    def one_errseq(self, case):
+        R, C, bad, good = case["errseq"]
+        cm.clear_caches()
+        V = []
+        try:
+            commands.evo_make_selection_array(R, C, bad)
+            V.append(("C12/unknown-well-accepted", f"{R}x{C}: wells {bad} were accepted"))
+        except Exception:
+            pass
+        try:
+            arr = commands.evo_make_selection_array(R, C, good)
+            s = commands.evo_get_selection(R, C, arr)
+            cols, rows, got, pad = gwl.decode_selection(s)
+        except Exception as e:
+            return [("C12/raised", f"{R}x{C}: {good} after a refused call: {type(e).__name__}: {e}")]
+        want = {(ord(w[0]) - 65, int(w[1:]) - 1) for w in good}
+        if got != want or (rows, cols) != (R, C):
+            V.append(("C12/decoded-selection/order-dependent", f"{R}x{C}: after a refused call with wells {bad}, selecting {good} gives {s!r} which decodes to {sorted(got)}"))
+        return V
+
     def run_chunk(self, chunk, st):
         cm.clear_caches()
+        if chunk["k"] == "errors":
+            return self.run_errors(chunk, st)
         if chunk["k"] == "pairs":
             return self.run_pairs(chunk, st)
         if chunk["k"] == "all":
@@ -119,6 +154,8 @@ class Harness(cm.BaseB):
 
     def replay(self, case):
         cm.clear_caches()
+        if "errseq" in case:
+            return [[c, d] for c, d in self.one_errseq(case)]
         if "seq" in case:
             (R1, C1, s1), (R2, C2, s2) = case["seq"]
             self.check(R1, C1, {tuple(x) for x in s1}, False)
@@ -144,6 +181,15 @@ class Harness(cm.BaseB):
                 for r, c in sel:
                     arr[r, c] = 1
             s = commands.evo_get_selection(R, C, arr)
+            if R > 1 and C > 1 and sel and (len(sel) + R) % 3 == 0:
+                # the same mask in column-major memory layout, as a transposed view, as bool and as int
+                keep = arr.copy()
+                for alt, name in ((np.asfortranarray(arr), "Fortran-ordered"), (np.ascontiguousarray(arr.T).T, "transposed view"), (arr.astype(bool), "bool"), (arr.astype(int), "int")):
+                    s2 = commands.evo_get_selection(R, C, alt)
+                    if s2 != s:
+                        V.append(("C12/array-layout", f"{R}x{C} {sorted(sel)[:6]}: {name} mask gives {s2!r}, C-ordered float mask gives {s!r}"))
+                if not np.array_equal(arr, keep):
+                    V.append(("C12/array-layout", f"{R}x{C}: evo_get_selection modified the caller's mask"))
         except Exception as e:
             return "raised", None, [("C12/raised", f"{R}x{C}: {type(e).__name__}: {e}")], None
         n = R * C
